@@ -27,6 +27,7 @@ Definition term := (seq nat * seq R)%type.
 Definition terms (p : parr) : seq term := zip (rows p) (cols p).
 Definition zeros (m : nat) : seq R := nseq m 0.
 Definition psize (p : parr) : nat := prodn (shape p).
+Definition cell (cs : seq (seq R)) (k i : nat) : R := nth 0 (nth [::] cs k) i.
 
 (* ---- well-formedness (C03) ---------------------------------------------- *)
 Definition wfb (p : parr) : bool :=
